@@ -280,6 +280,11 @@ pub fn gen_mux(seed: u64) -> Scenario {
         _ => &[0, 1, 1, 3, 10, 50, 200],
     };
     let gaps: &[u64] = if r.chance(1, 2) { &[0] } else { &[0, 0, 1, 3] };
+    // In a sixth of the runs message IDs recur (a search stays outstanding while the shared counter comes
+    // round to just below its ID). Once IDs can recur, a duplicate, late or post-cancellation message for an
+    // old ID may legitimately reach the new owner of that ID - a hazard of the protocol, not of the client -
+    // so those runs carry no such traffic: no extras, no cancellations, no early finish, no in-flight abandon.
+    let recycle = r.chance(1, 6);
     let nclients = 1 + r.usize(5).min(r.usize(5) + 1);
     let max_items = *r.pick(&[2, 2, 4, 4, 12]);
     let mut single_tokens = vec![];
@@ -293,9 +298,9 @@ pub fn gen_mux(seed: u64) -> Scenario {
             match r.below(100) {
                 0..=44 => {
                     let op = gen_single_op(&mut r, &tok);
-                    let plan = gen_single_plan(&mut r, &op, &tok, delays, true);
+                    let plan = gen_single_plan(&mut r, &op, &tok, delays, !recycle);
                     sc.plan.by_token.insert(tok.clone(), plan);
-                    let cancel = if r.chance(1, 12) { Some(r.below(4) as u32) } else { None };
+                    let cancel = if !recycle && r.chance(1, 12) { Some(r.below(4) as u32) } else { None };
                     if cancel.is_none() {
                         single_tokens.push(tok.clone());
                     }
@@ -316,9 +321,9 @@ pub fn gen_mux(seed: u64) -> Scenario {
                     let adapter = if r.chance(1, 2) { Adapter::Direct } else { Adapter::EntriesOnly };
                     cs.steps.push(Step::Open { token: tok.clone(), slot, search: simple_search(&tok, &mut r), adapter, mods: Mods::default() });
                     // read everything, or stop early
-                    let reads = if r.chance(2, 3) { n_items + 1 } else { r.usize(n_items + 1) };
+                    let reads = if recycle || r.chance(2, 3) { n_items + 1 } else { r.usize(n_items + 1) };
                     for _ in 0..reads {
-                        let cancel = if adapter == Adapter::Direct && r.chance(1, 15) { Some(r.below(3) as u32) } else { None };
+                        let cancel = if !recycle && adapter == Adapter::Direct && r.chance(1, 15) { Some(r.below(3) as u32) } else { None };
                         if cancel.is_some() {
                             // a cancelled next() is followed by a real one
                             cs.steps.push(Step::Next { slot, cancel_after_polls: cancel });
@@ -351,7 +356,74 @@ pub fn gen_mux(seed: u64) -> Scenario {
         }
         sc.clients.push(cs);
     }
+    // Sometimes: an operation is abandoned from another handle while its caller is still waiting; the
+    // server answers it much later all the same (the late reply must reach nobody).
+    if !recycle && r.chance(1, 5) {
+        let vtok = format!("v{}", sc.clients.len());
+        let op = gen_single_op(&mut r, &vtok);
+        let mut plan = gen_single_plan(&mut r, &op, &vtok, &[0], false);
+        if let ReplyPlan::Single { after_ms, .. } = &mut plan {
+            *after_ms = 60 + r.below(100);
+        }
+        sc.plan.by_token.insert(vtok.clone(), plan);
+        sc.clients.push(ClientScript { steps: vec![Step::Op { token: vtok.clone(), op, mods: Mods::default(), cancel_after_polls: None }], start_delay_ms: 0 });
+        sc.clients.push(ClientScript {
+            steps: vec![Step::Sleep { ms: 10 }, Step::Op { token: format!("{vtok}ab"), op: OpSpec::Abandon(IdRef::Token(vtok)), mods: Mods::default(), cancel_after_polls: None }],
+            start_delay_ms: 0,
+        });
+    }
+    // Sometimes: a search stays outstanding (it has delivered items, the server never finishes it) while the
+    // shared ID counter comes round to just below its ID - the state a long history of allocations produces.
+    let mut moved_counter = false;
+    if recycle {
+        let c = sc.clients.len();
+        let htok = format!("h{c}");
+        let n_items = 1 + r.usize(2);
+        let items = (0..n_items).map(|i| ItemPlan { gap_ms: 0, op: gen_item(&mut r, &format!("{htok}:i{i}")), ctrls: None }).collect();
+        sc.plan.by_token.insert(htok.clone(), ReplyPlan::Items { items, done: None, extra: vec![] });
+        let mut cs = ClientScript::default();
+        cs.steps.push(Step::Open { token: htok.clone(), slot: 0, search: simple_search(&htok, &mut r), adapter: Adapter::Direct, mods: Mods::default() });
+        cs.steps.push(Step::Next { slot: 0, cancel_after_polls: None });
+        cs.steps.push(Step::SetIdCounterBefore { token: htok.clone(), back: 1 + r.below(3) as i32 });
+        for k in 0..2 + r.usize(3) {
+            let tok = format!("h{c}k{k}");
+            if r.chance(1, 3) {
+                let plan = gen_items_plan(&mut r, &tok, 2, true, &[0, 1]);
+                sc.plan.by_token.insert(tok.clone(), plan);
+                cs.steps.push(Step::Op { token: tok.clone(), op: OpSpec::Search(simple_search(&tok, &mut r)), mods: Mods::default(), cancel_after_polls: None });
+            } else {
+                let op = gen_single_op(&mut r, &tok);
+                let plan = gen_single_plan(&mut r, &op, &tok, &[0, 1, 3], false);
+                sc.plan.by_token.insert(tok.clone(), plan);
+                cs.steps.push(Step::Op { token: tok, op, mods: Mods::default(), cancel_after_polls: None });
+            }
+        }
+        if n_items > 1 {
+            cs.steps.push(Step::Next { slot: 0, cancel_after_polls: None });
+        }
+        cs.steps.push(Step::Finish { slot: 0 });
+        sc.clients.push(cs);
+        moved_counter = true;
+    }
     sc.plan.unsolicited = gen_unsolicited(&mut r, 60, &single_tokens);
+    if moved_counter {
+        // once IDs can recur within the run, a duplicate or late message for an old ID may legitimately
+        // reach the new owner of that ID: this shape carries no such traffic
+        for p in sc.plan.by_token.values_mut() {
+            match p {
+                ReplyPlan::Single { extra, .. } | ReplyPlan::Items { extra, .. } => extra.clear(),
+                _ => {}
+            }
+        }
+        sc.plan.unsolicited.retain(|u| !matches!(u.id, UnsolId::OfToken(_)));
+        for c in sc.clients.iter_mut() {
+            for st in c.steps.iter_mut() {
+                if let Step::Op { cancel_after_polls, .. } | Step::Next { cancel_after_polls, .. } = st {
+                    *cancel_after_polls = None;
+                }
+            }
+        }
+    }
     sc.id_table = gen_id_start(&mut r);
     let start = sc.id_table.as_ref().map(|t| t.0 as i64).unwrap_or(0);
     keep_ids_apart(&mut sc, start);
@@ -461,7 +533,13 @@ pub fn gen_stream(seed: u64) -> Scenario {
                     }
                     for _ in 0..calls.saturating_sub(read_first).max(1) {
                         match r.below(10) {
-                            0..=4 => cs.steps.push(Step::Next { slot, cancel_after_polls: None }),
+                            0..=4 => {
+                                if adapter == Adapter::Direct && r.chance(1, 6) {
+                                    // a next() future dropped while pending must not disturb the stream
+                                    cs.steps.push(Step::Next { slot, cancel_after_polls: Some(r.below(3) as u32) });
+                                }
+                                cs.steps.push(Step::Next { slot, cancel_after_polls: None })
+                            }
                             5..=6 => cs.steps.push(Step::State { slot }),
                             7..=8 => cs.steps.push(Step::Finish { slot }),
                             _ => {
@@ -496,6 +574,23 @@ pub fn gen_leak(seed: u64) -> Scenario {
     let rounds = 1 + r.usize(5);
     let mut scripts: Vec<ClientScript> = (0..nclients).map(|_| ClientScript::default()).collect();
     let mut late_tokens: Vec<(String, u64)> = vec![];
+    // paging server for the paged lifecycles of this run: sometimes it never answers page `stall`
+    let page_n = 3 + r.usize(8);
+    let page_size = 1 + r.usize(3);
+    let stall = if r.chance(1, 2) { Some(1 + r.usize(2)) } else { None };
+    sc.plan.paging = Some(PagingModel {
+        n: page_n,
+        cap: 0,
+        cookie_seed: r.next_u64(),
+        empty_first_page: false,
+        supports_paging: true,
+        final_rc: 0,
+        other_ctrls: vec![],
+        page_delay_ms: 0,
+        page_sizes: vec![],
+        extra_empty_last_page: r.chance(1, 4),
+        stall_at_page: stall,
+    });
     let mut slot_ctr = vec![0usize; nclients];
     for round in 0..rounds {
         // optional in-flight abandon between client 0 and client 1
@@ -554,11 +649,63 @@ pub fn gen_leak(seed: u64) -> Scenario {
                             });
                         }
                     }
-                    40..=54 => {
+                    40..=46 => {
                         // search()
                         let plan = gen_items_plan(&mut r, &tok, 4, true, &[0, 0, 1]);
                         sc.plan.by_token.insert(tok.clone(), plan);
                         scripts[c].steps.push(Step::Op { token: tok.clone(), op: OpSpec::Search(simple_search(&tok, &mut r)), mods: Mods::default(), cancel_after_polls: None });
+                    }
+                    47..=50 => {
+                        // search() with a per-item timeout that expires between items: the call fails and
+                        // nobody calls finish() on the stream inside it
+                        let t = 10u64;
+                        let mut plan = gen_items_plan(&mut r, &tok, 3, true, &[0]);
+                        if let ReplyPlan::Items { items, done, .. } = &mut plan {
+                            let k = r.usize(items.len() + 1);
+                            if k < items.len() {
+                                items[k].gap_ms = 5 * t;
+                            } else if let Some(d) = done {
+                                d.gap_ms = 5 * t;
+                            }
+                            if r.chance(1, 3) {
+                                // the server stalls for good
+                                items.truncate(k);
+                                *done = None;
+                            }
+                        }
+                        sc.plan.by_token.insert(tok.clone(), plan);
+                        scripts[c].steps.push(Step::Op {
+                            token: tok.clone(),
+                            op: OpSpec::Search(simple_search(&tok, &mut r)),
+                            mods: Mods { timeout_ms: Some(t), ..Default::default() },
+                            cancel_after_polls: None,
+                        });
+                    }
+                    51..=54 => {
+                        // paged search: read to the end, or (stalling server) time out on a later page; then finish
+                        sc.plan.by_token.insert(tok.clone(), ReplyPlan::Paged);
+                        let slot = slot_ctr[c];
+                        slot_ctr[c] += 1;
+                        let adapter = *r.pick(&[Adapter::Paged(page_size as i32), Adapter::EntriesOnlyPaged(page_size as i32), Adapter::PagedEntriesOnly(page_size as i32)]);
+                        let timeout = Some(10u64);
+                        scripts[c].steps.push(Step::Open { token: tok.clone(), slot, search: simple_search(&tok, &mut r), adapter, mods: Mods { timeout_ms: timeout, ..Default::default() } });
+                        let available = match stall {
+                            Some(j) => (page_size * j).min(page_n),
+                            None => page_n,
+                        };
+                        let reads = if r.chance(3, 4) { available + 1 } else { r.usize(available + 1) };
+                        for _ in 0..reads {
+                            scripts[c].steps.push(Step::Next { slot, cancel_after_polls: None });
+                        }
+                        scripts[c].steps.push(Step::Finish { slot });
+                        if r.chance(1, 3) {
+                            scripts[c].steps.push(Step::Op {
+                                token: format!("{tok}ab"),
+                                op: OpSpec::Abandon(IdRef::Token(tok)),
+                                mods: Mods::default(),
+                                cancel_after_polls: None,
+                            });
+                        }
                     }
                     55..=89 => {
                         // stream: direct or adapted; read to the end or finished early; finished once or twice;
@@ -732,8 +879,16 @@ pub fn gen_ids(seed: u64) -> Scenario {
                 }
                 15..=16 if held.is_none() => {
                     // a search that stays outstanding: no items, no done, the stream is held open
-                    sc.plan.by_token.insert(tok.clone(), ReplyPlan::Items { items: vec![], done: None, extra: vec![] });
+                    // (it may already have delivered items: a search is outstanding until SearchResultDone)
+                    let n_items = r.usize(3);
+                    let items = (0..n_items).map(|i| ItemPlan { gap_ms: 0, op: gen_item(&mut r, &format!("{tok}:i{i}")), ctrls: None }).collect();
+                    sc.plan.by_token.insert(tok.clone(), ReplyPlan::Items { items, done: None, extra: vec![] });
                     cs.steps.push(Step::Open { token: tok.clone(), slot, search: simple_search(&tok, &mut r), adapter: Adapter::Direct, mods: Mods::default() });
+                    // everything the server sends for it is read at once: nothing of it may still be in transit
+                    // when the stream is finished, or it would be late traffic for a recycled ID
+                    for _ in 0..n_items {
+                        cs.steps.push(Step::Next { slot, cancel_after_polls: None });
+                    }
                     held = Some((tok, slot));
                     slot += 1;
                 }
@@ -780,6 +935,22 @@ pub fn gen_time(seed: u64) -> Scenario {
     sc.knobs.write_quota = 0;
     sc.knobs.write_pending_pm = 0;
     sc.knobs.net_delay_max_ms = *r.pick(&[0, 0, 1, 3]);
+    let page_n = 3 + r.usize(6);
+    let page_size = 1 + r.usize(3);
+    let stall = if r.chance(2, 3) { Some(1 + r.usize(2)) } else { None };
+    sc.plan.paging = Some(PagingModel {
+        n: page_n,
+        cap: 0,
+        cookie_seed: r.next_u64(),
+        empty_first_page: false,
+        supports_paging: true,
+        final_rc: 0,
+        other_ctrls: vec![],
+        page_delay_ms: 0,
+        page_sizes: vec![],
+        extra_empty_last_page: false,
+        stall_at_page: stall,
+    });
     let nclients = 1 + r.usize(3);
     for c in 0..nclients {
         let mut cs = ClientScript { steps: vec![], start_delay_ms: *r.pick(&[0, 0, 1, 7]) };
@@ -790,7 +961,22 @@ pub fn gen_time(seed: u64) -> Scenario {
             let t = *r.pick(&[1u64, 2, 5, 10, 50, 100, 1000, 60_000]);
             let timed = r.chance(2, 3);
             let timeout = if timed { Some(t) } else { None };
-            match r.below(10) {
+            match r.below(11) {
+                10 => {
+                    // paged search with a per-item timeout; the server may stall on a later page
+                    sc.plan.by_token.insert(tok.clone(), ReplyPlan::Paged);
+                    let adapter = *r.pick(&[Adapter::Paged(page_size as i32), Adapter::EntriesOnlyPaged(page_size as i32)]);
+                    cs.steps.push(Step::Open { token: tok.clone(), slot, search: simple_search(&tok, &mut r), adapter, mods: Mods { timeout_ms: Some(t), controls: None, opts: None } });
+                    let available = match stall {
+                        Some(j) => (page_size * j).min(page_n),
+                        None => page_n,
+                    };
+                    for _ in 0..available + 1 {
+                        cs.steps.push(Step::Next { slot, cancel_after_polls: None });
+                    }
+                    cs.steps.push(Step::Finish { slot });
+                    slot += 1;
+                }
                 0..=4 => {
                     let op = gen_single_op(&mut r, &tok);
                     let mut plan = gen_single_plan(&mut r, &op, &tok, &[0], false);
@@ -940,7 +1126,7 @@ pub fn gen_frame_base(seed: u64) -> Scenario {
     let mut sc = Scenario::new("FRAME");
     sc.knobs = Knobs { lenform_extra_max: *r.pick(&[0, 0, 1, 3]), lenform_seed: r.next_u64(), ..Knobs::default() };
     let nclients = 1 + r.usize(4);
-    let big = r.chance(1, 8);
+    let big = r.chance(1, 5);
     let big_client = r.usize(nclients);
     for c in 0..nclients {
         let mut cs = ClientScript::default();
@@ -957,7 +1143,7 @@ pub fn gen_frame_base(seed: u64) -> Scenario {
                 let mut n_items = 0;
                 if let ReplyPlan::Items { items, done, .. } = &mut plan {
                     if big && c == big_client {
-                        let size = *r.pick(&[3000usize, 9000, 20_000, 65_000]);
+                        let size = *r.pick(&[3000usize, 9000, 20_000, 65_000, 66_000, 70_000, 131_000, 200_000]);
                         items.insert(0, ItemPlan { gap_ms: 0, op: RespOp::Entry { dn: format!("cn={tok}:big"), attrs: vec![("blob".into(), vec![r.bytes(size)])] }, ctrls: None });
                     }
                     if let Some(f) = items.first_mut() {
@@ -1289,6 +1475,9 @@ pub fn gen_paged(seed: u64) -> Scenario {
         final_rc: if r.chance(2, 3) { 0 } else { *r.pick(RESULT_CODES) },
         other_ctrls: if r.chance(1, 3) { vec![Ctl { oid: gen_oid(&mut r).into_bytes(), crit: None, val: Some(b"other".to_vec()) }] } else { vec![] },
         page_delay_ms: *r.pick(&[0, 0, 1]),
+        page_sizes: if r.chance(1, 3) { (0..1 + r.usize(5)).map(|_| *r.pick(&[0usize, 0, 1, 2, 3, 7])).collect() } else { vec![] },
+        extra_empty_last_page: r.chance(1, 4),
+        stall_at_page: None,
     });
     let nclients = if r.chance(1, 4) { 2 } else { 1 };
     for c in 0..nclients {
@@ -1863,4 +2052,38 @@ pub fn gen_estab_tls(seed: u64) -> Scenario {
     c.std_stream = if r.chance(1, 7) { StdKind::Tcp } else { StdKind::None };
     c.sync_api = c.conn_timeout_ms.is_none() && st != StartTlsResp::SuccessPlusInjected && r.chance(1, 4);
     estab_scenario("ESTABTLS", &c)
+}
+
+/// Base scenario of family PAGEDFAULT (C04): one paged search read to the end, then finished.
+pub fn gen_paged_fault_base(seed: u64) -> Scenario {
+    let mut r = Rng::new(seed);
+    let mut sc = Scenario::new("PAGEDFAULT");
+    sc.knobs = gen_knobs(&mut r, false);
+    sc.knobs.net_delay_max_ms = *r.pick(&[0, 0, 1]);
+    let n = 2 + r.usize(11);
+    sc.plan.paging = Some(PagingModel {
+        n,
+        cap: 0,
+        cookie_seed: r.next_u64(),
+        empty_first_page: false,
+        supports_paging: true,
+        final_rc: 0,
+        other_ctrls: vec![],
+        page_delay_ms: *r.pick(&[0, 0, 1]),
+        page_sizes: vec![],
+        extra_empty_last_page: r.chance(1, 4),
+        stall_at_page: None,
+    });
+    let tok = "c0p0".to_string();
+    sc.plan.by_token.insert(tok.clone(), ReplyPlan::Paged);
+    let size = 1 + r.below(3) as i32;
+    let adapter = *r.pick(&[Adapter::Paged(size), Adapter::Paged(size), Adapter::EntriesOnlyPaged(size), Adapter::PagedEntriesOnly(size)]);
+    let mut cs = ClientScript::default();
+    cs.steps.push(Step::Open { token: tok, slot: 0, search: simple_search("c0p0", &mut r), adapter, mods: Mods::default() });
+    for _ in 0..=n {
+        cs.steps.push(Step::Next { slot: 0, cancel_after_polls: None });
+    }
+    cs.steps.push(Step::Finish { slot: 0 });
+    sc.clients.push(cs);
+    sc
 }
